@@ -227,6 +227,11 @@ def run(ctx):
         if i < 2:
             ctx.sample(dict(kind="read-arbitrary", members=[(n, f, b[0]) for n, f, b in ms], password=pw, result=enc[:8]))
 
+    # concrete failures of the real code are reported first: they must not be lost if the model cannot be evaluated
+    # any more (e.g. because the translator no longer recognises the changed source)
+    for (key, text), replay in mon_fail[:3]:
+        ctx.finding(key, "C33 fails on the real backup code: " + text,
+                    dict(kind="implementation-monitor", **replay))
     res = eval_cases(ctx, "archive", S.HEADER, exprs, ctx.n(50, 400))
     bad = [i for i, z in enumerate(res) if z != 0]
     wexprs, wmetas, layout_ok = S.wire_cases(rng, ctx.n(60, 600))
@@ -249,9 +254,6 @@ def run(ctx):
     ctx.disagreements += len(bad) + len(wbad)
     ctx.disagreements_checked = len(bad) + len(wbad)
 
-    for (key, text), replay in mon_fail[:3]:
-        ctx.finding(key, "C33 fails on the real backup code: " + text,
-                    dict(kind="implementation-monitor", **replay))
     if not layout_ok:
         bad_layout = True
     else:
